@@ -58,6 +58,7 @@ pub struct Sc {
     pub passive: bool,
 }
 
+#[derive(Clone, Copy)]
 pub struct C18;
 
 fn build<G: GraphLike>(sc: &Sc) -> G {
